@@ -98,14 +98,23 @@ def build_frame(spec):
     payload, ref_apdu = (None, None) if spec["payload"] is None else make_payload(spec["payload"])
     tg = Telegram(destination_address=dst, payload=payload, source_address=IndividualAddress(spec["src"]), tpci=tp)
     data = CEMILData.init_from_telegram(tg)
-    data.flags = CEMIFlags(
-        priority=CEMIPriority(spec["priority"]),
-        repeat_on_error=spec["repeat"],
-        system_broadcast=spec["system_broadcast"],
-        acknowledge_request=spec["ack"],
-        confirm_error=spec["confirm_error"],
-        hop_count=spec["hop"],
-    )
+    if spec.get("flag_mode") == "assign":
+        # flags set by attribute assignment on the built frame, as callers do (e.g. `cemi.data.flags.hop_count = 5`)
+        data.flags.priority = CEMIPriority(spec["priority"])
+        data.flags.repeat_on_error = spec["repeat"]
+        data.flags.system_broadcast = spec["system_broadcast"]
+        data.flags.acknowledge_request = spec["ack"]
+        data.flags.confirm_error = spec["confirm_error"]
+        data.flags.hop_count = spec["hop"]
+    else:
+        data.flags = CEMIFlags(
+            priority=CEMIPriority(spec["priority"]),
+            repeat_on_error=spec["repeat"],
+            system_broadcast=spec["system_broadcast"],
+            acknowledge_request=spec["ack"],
+            confirm_error=spec["confirm_error"],
+            hop_count=spec["hop"],
+        )
     frame = CEMIFrame(code=CEMIMessageCode(spec["code"]), info=CEMIInfo(bytes(spec["addinfo"])), data=data)
     return frame, ref_apdu
 
@@ -127,7 +136,14 @@ def oracle_built(ctx, spec) -> None:
     spec = dict(spec)
     if isinstance(spec.get("payload"), list):
         spec["payload"] = tuple(spec["payload"])
-    frame, ref_apdu = build_frame(spec)
+    try:
+        frame, ref_apdu = build_frame(spec)
+    except ConversionError as e:
+        # refused while building the frame: a rejection, fine only for an out-of-range hop count
+        if 0 <= spec["hop"] <= 7:
+            ctx.fail(f"C13:valid-rejected-at-build:{exc_site(e)}", spec, f"building a valid frame was refused: {e}")
+        ctx.case(repr(sorted(spec.items())), nontrivial=True, cls="rejected-at-build")
+        return
     npdu_len = 0 if ref_apdu is None else len(ref_apdu) - 1
     group = spec["dst_kind"] in ("group", "broadcast")
     must_reject = npdu_len > 254 or not 0 <= spec["hop"] <= 7
@@ -341,6 +357,11 @@ def enumerate_lengths(ctx) -> None:
                         oracle_built(ctx, {**base, "code": code, "dst_kind": "group", "dst": 0xFFFF, "tpci": "TDataGroup", "payload": ("gvr", bytes(n)),
                                            "priority": prio, "repeat": bool(bits & 1), "system_broadcast": bool(bits & 2), "ack": bool(bits & 4),
                                            "confirm_error": bool(bits & 8), "hop": hop})  # fmt: skip
+    # hop count boundary sweep, flags set through the constructor and by assignment on the built frame
+    for hop in (-8, -1, 0, 1, 7, 8, 9, 15, 16, 255):
+        for mode in ("ctor", "assign"):
+            for dk, dst, tp in kinds[:3]:
+                oracle_built(ctx, {**base, "dst_kind": dk, "dst": dst, "tpci": tp, "payload": ("gvw", b"\x01"), "hop": hop, "flag_mode": mode})
     for i in range(len(S.service_instances())):
         for dk, dst, tp in kinds[:4]:
             oracle_built(ctx, {**base, "dst_kind": dk, "dst": dst, "tpci": tp, "seq": 3, "payload": ("svc", i)})
